@@ -119,8 +119,11 @@ def main():
     # a recorded curve edge with one x position changed is a DRIFT; the dash output with one vertex moved is a DRIFT
     from .props import drive, execute, validate, read_ndjson
     for fam, mod, mut in (("curveedge", "Trace_CurveEdge", lambda rec: rec["res"][0]["xs"].__setitem__(0, rec["res"][0]["xs"][0] + 1)),
-                          ("dashops", "Trace_DashOps", lambda rec: [o.__setitem__(1, o[1] + 64) for o in rec["dash_ops"] if o[0] == "L"])):
+                          ("dashops", "Trace_DashOps", lambda rec: [o.__setitem__(1, o[1] + 64) for o in rec["dash_ops"] if o[0] == "L"]),
+                          ("stroke", "Trace_StrokeOps", lambda rec: rec["stroke_polys"][0]["pts"][0].__setitem__(0, rec["stroke_polys"][0]["pts"][0][0] + 512))):
         ds = drive("selftest", fam, 1, 3)
+        for sc in ds:
+            sc["want_stroke_path"] = True
         tp = execute("selftest", fam, ds)
         recs = read_ndjson(tp)
         mut(recs[0])
